@@ -8,7 +8,8 @@ B = ('str', 'b')
 SP = ('re', ' +')
 CM = ('re', '#[^\\n]*')
 NLSP = ('re', '[ \\n]+')
-LITS = [('str', 'a'), ('stri', 'a'), ('re', 'a+'), ('rei', 'a')]
+LITS = [('str', 'a'), ('stri', 'a'), ('re', 'a+'), ('rei', 'a'), ('re', 'b?')]
+HH = ('seq', ('str', '#'), ('str', '#'))       # an ignore pattern made of two literals (can fail half-way)
 
 
 def shapes(l):
@@ -41,6 +42,10 @@ IGNORES = [
     ('two/anon', [CM, SP], 'anon'),
     ('two/anon_after', [SP, CM], 'anon_after'),
     ('nl/named', [NLSP], 'named'),
+    ('multilast/named', [SP, HH], 'named'),
+    ('multifirst/named', [HH, SP], 'named'),
+    ('multilast/anon', [SP, HH], 'anon'),
+    ('multionly/named', [HH], 'named'),
 ]
 
 
@@ -79,7 +84,7 @@ def jobs(tier):
                     if tier == 'quick' and l != LITS[0] and style not in ('named', 'anon'):
                         continue
                     mods = [(tuple(rules), tuple(pats), sname, None, (), False, style, None)]
-                    two = len(pats) > 1
+                    two = len(pats) > 1 or pats[0] == HH
                     nl = pats[0] == NLSP
                     inp = ('a\\s\\n:4' if nl else 'ab\\s#:%d' % n1 if two else 'ab\\s,:%d' % n1 if sn == 'sep' else 'ab\\s:%d' % n1)
                     yield {'mods': mods, 'inputs': inp, 'mode': 'spans', 'entries': entries,
